@@ -267,12 +267,37 @@ def run_shard_for(ctx, mod, quick_n, thorough_n):
   ctx.run(t, mod.ID)
 
 
+def judge_param(case):
+  """parametrised components: instances of one class that differ only in construct() arguments (positional, keyword,
+  defaulted, overridden with set_param) must each behave like their own PyMTL instance in the translated text"""
+  from vf.props import c13
+  v = c13.judge_b(case, backends=(BACKEND,))
+  return None if v is None else ("param:" + v[0], v[1])
+
+
 def run_shard(ctx):
   import vf.props.c03 as me
   run_shard_for(ctx, me, 1200, 40000)
+  if ctx.violations: return
+  from vf.props import c13
+
+  @seed(ctx.hseed(2))
+  @ctx.settings(ctx.n(480, 8000))
+  @given(c13.default_arg_cases())
+  def tp(case):
+    if ctx.out_of_time(): return
+    ctx.count()
+    ctx.label("parametrised_component_family")
+    if case.get("set_param"): ctx.label("set_param_override")
+    case = dict(case); case["family"] = "param"
+    v = judge_param(case)
+    if v is None and len({tuple(k[2:]) for k in case["insts"]}) >= 2: ctx.nontriv(["param", case["insts"], case.get("set_param")])
+    ctx.judge(case, v)
+  ctx.run(tp, "c03p")
 
 
 def replay(case):
+  if case.get("family") == "param": return judge_param(case)
   return judge(case)
 
 
